@@ -401,7 +401,7 @@ fn payload_strategy() -> impl Strategy<Value = Payload> {
     ]
 }
 
-fn case_strategy() -> impl Strategy<Value = Case> {
+pub fn case_strategy() -> impl Strategy<Value = Case> {
     (any::<u16>(), any::<u16>(), payload_strategy()).prop_map(|(pi, di, payload)| {
         let dialect = DIALECTS[pick_idx(di, 3)];
         // construct an applicable (position, dialect, payload) triple: pick among the applicable positions
